@@ -230,6 +230,20 @@ func (cl *Client) injected(method string) error {
 	return nil
 }
 
+// FailNext makes the next call of the named method fail once; ClearFail
+// withdraws a failure that has not been used.
+func (cl *Client) FailNext(method string) {
+	cl.mu.Lock()
+	defer cl.mu.Unlock()
+	cl.FailNth[method] = cl.counts[method] + 1
+}
+
+func (cl *Client) ClearFail(method string) {
+	cl.mu.Lock()
+	defer cl.mu.Unlock()
+	delete(cl.FailNth, method)
+}
+
 // ---- relevance ----------------------------------------------------------------
 
 func (cl *Client) relevant(tx *wire.MsgTx) bool {
